@@ -52,14 +52,37 @@ def diag_tuple(e):
     return [e.name, e.text, e.level, [hl_tuple(h) for h in e.highlights]]
 
 
-def classify_exc(e):
-    """crash:<ExcType>@<innermost norminette frame file:function>"""
-    tb = traceback.extract_tb(e.__traceback__)
-    where = "?"
-    for fr in tb:
+def classify_tb(etype, tb):
+    """<kind>:<ExcType>@<innermost norminette frame file:function>[<-<innermost rule frame>]"""
+    frames = traceback.extract_tb(tb) if not isinstance(tb, list) else tb
+    where, rule = "?", None
+    for fr in frames:
         if "/norminette/" in fr.filename:
-            where = os.path.relpath(fr.filename, REPO) + ":" + fr.name
-    return f"crash:{type(e).__name__}@{where}"
+            rel = os.path.relpath(fr.filename, REPO)
+            where = rel + ":" + fr.name
+            if "/norminette/rules/" in fr.filename:
+                rule = rel.replace("norminette/rules/", "") + ":" + fr.name
+    sig = f"{etype}@{where}"
+    if rule and not where.endswith(rule):
+        sig += "<-" + rule
+    return sig
+
+
+def hang_site(tb):
+    """where a run that does not finish is spinning: the outermost rule frame is stable (the
+    loop may call helpers), else the innermost norminette frame"""
+    frames = traceback.extract_tb(tb)
+    for fr in frames:
+        if "/norminette/rules/" in fr.filename:
+            return os.path.relpath(fr.filename, REPO).replace("norminette/rules/", "") + ":" + fr.name
+    for fr in reversed(frames):
+        if "/norminette/" in fr.filename:
+            return os.path.relpath(fr.filename, REPO) + ":" + fr.name
+    return "?"
+
+
+def classify_exc(e):
+    return "crash:" + classify_tb(type(e).__name__, e.__traceback__)
 
 
 def lex_impl(src, name="f.c", timeout=10.0):
@@ -92,8 +115,8 @@ def pipeline(name, src, debug=0, R=None, timeout=10.0, reg=None, keep=False):
             toks = list(Lexer(f))
             ctx = Context(f, toks, debug, R)
             (reg or registry()).run(ctx)
-    except Hang:
-        return {"outcome": "hang", "diags": [], "stdout": out.getvalue()}
+    except Hang as e:
+        return {"outcome": "hang@" + hang_site(e.__traceback__), "diags": [], "stdout": out.getvalue()}
     except CParsingError as e:
         return {"outcome": "fatal", "msg": e.msg, "diags": [], "stdout": out.getvalue()}
     except RecursionError as e:
